@@ -94,6 +94,14 @@ def _is_change_test(t: ast.AST, index_vars, du=None, node=None):
         return None
     op = t.ops[0]
     has_id = _mentions_id(du, node, t)
+    if has_id and du is not None and node is not None and isinstance(op, (ast.NotEq, ast.Eq)):
+        # 'unchanged' means: equal to what is published (index / tree entry).  An identity computed from the bytes of a
+        # file says what the working copy holds, which a failed write leaves ahead of the index.
+        from ..dataflow import depends_on
+        for side in [t.left] + list(t.comparators):
+            deps = depends_on(du, node, side)
+            if any(d in ("<call:open>", "<call:os.open>", "<call:io.open>") or d.endswith((".read_bytes>", ".read_text>")) for d in deps):
+                return None
     names = {x.id for x in ast.walk(t) if isinstance(x, ast.Name)}
     if isinstance(op, (ast.NotEq, ast.Eq)) and (has_id or any("id" in n.lower() or "sha" in n.lower() for n in names)):
         return "t" if isinstance(op, ast.NotEq) else "f"
